@@ -10,7 +10,7 @@ def budget(tier):
 
 def gen_case(rng, tier, idx):
     return gen_accounting_case(rng, tier, hft=(rng.choice([1, 2, 3]) if idx % 2 == 0 else None),
-                               penny=(True if idx % 8 == 3 else None))
+                               penny=(True if idx % 8 == 3 else None), auction=(idx % 25 == 7))
 
 
 def sample_of(case):
